@@ -54,6 +54,7 @@ func (vm *VM) Run() error {
 		// This loop is the hot path of the vm, avoid unnecessary
 		// lookups or memory movement.
 		op := Opcode(vm.instructions[ip])
+		verifStep(vm, ip, op)
 		switch op {
 		case OpConstant:
 			constIndex := ReadUint16(vm.instructions[ip+1:])
